@@ -203,6 +203,8 @@ func (a *Agg) Coverage(rule string) map[string]any {
 			"revocations_checked":          a.Stats.RevokesChecked.Load(),
 			"constraint_noops":             a.Stats.ConstraintNoops.Load(),
 			"crash_mid_step":               a.Stats.CrashMidStep.Load(),
+			"side_writer_calls":            a.Stats.SideWrites.Load(),
+			"side_writer_calls_refused":    a.Stats.SideRefused.Load(),
 			"max_durable_writes_per_step":  a.Stats.MaxWrites.Load(),
 			"durable_writes_table":         WritesTable(),
 			"crash_points_discovered_late": WritesTableLate.Load(),
